@@ -76,7 +76,7 @@ func backing(sc *Scn, r *Result, i int, h Hop) *Delivered {
 	// send delay between two probes: processing can lag arrival by up to one send delay there
 	lag := int64(rttTolNs)
 	if !vi.Parallel {
-		lag += int64(sc.DelayMs) * 1e6
+		lag += int64(sc.SendDelayMs()) * 1e6
 	}
 	rtt := h.RTTus * 1000
 	for k := range ds {
@@ -133,7 +133,7 @@ func engineWindow(sc *Scn, r *Result, i int, ttl int) (from, to int64) {
 	vi := Info(sc.Variant)
 	st := sendTimes(r.Net, o.SinkID)
 	timeout := int64(sc.TimeoutMs) * 1e6
-	delay := int64(sc.DelayMs) * 1e6
+	delay := int64(sc.SendDelayMs()) * 1e6
 	if vi.Parallel {
 		first := st[sc.First]
 		n := int64(sc.Last - sc.First + 1)
@@ -277,7 +277,7 @@ func RTT(sc *Scn, r *Result, i int) []Issue {
 	// the serial engine does not read while it waits out the send delay: processing may lag arrival by up to one send delay
 	tol := int64(rttTolNs)
 	if !Info(sc.Variant).Parallel {
-		tol += int64(sc.DelayMs) * 1e6
+		tol += int64(sc.SendDelayMs()) * 1e6
 	}
 	for _, h := range Hops(o.Run) {
 		if !h.Addr.IsValid() {
@@ -391,8 +391,8 @@ func Emission(sc *Scn, r *Result, i int) []Issue {
 		if t < sc.First || t > sc.Last {
 			out = append(out, Issue{"ttl-out-of-range", fmt.Sprintf("ttl %d not in %d..%d", t, sc.First, sc.Last)})
 		}
-		if prevT >= 0 && e.T-prevT < int64(sc.DelayMs)*1e6 {
-			out = append(out, Issue{"pacing", fmt.Sprintf("probes ttl %d and %d are %.3fms apart, delay is %dms", t-1, t, float64(e.T-prevT)/1e6, sc.DelayMs)})
+		if prevT >= 0 && e.T-prevT < int64(sc.SendDelayMs())*1e6 {
+			out = append(out, Issue{"pacing", fmt.Sprintf("probes ttl %d and %d are %.3fms apart, delay is %dms", t-1, t, float64(e.T-prevT)/1e6, sc.SendDelayMs())})
 		}
 		prevT = e.T
 		if k == 0 {
@@ -432,6 +432,24 @@ func Emission(sc *Scn, r *Result, i int) []Issue {
 	}
 	if afterDest > 1 {
 		out = append(out, Issue{"sent-after-destination", fmt.Sprintf("%d probes sent after the destination reply had arrived", afterDest)})
+	}
+	// order-based (no clock): once the receiver has come back for the next packet after being handed the destination's
+	// reply, the reply has been processed; from then on at most one more probe (the one in flight) may be emitted
+	if len(r.Obs) == 1 {
+		stage, after := 0, 0
+		for _, ev := range r.Net.Order {
+			switch {
+			case stage == 0 && ev.Kind == "read-dest" && ev.Flow == o.SinkID:
+				stage = 1
+			case stage == 1 && ev.Kind == "read-call":
+				stage = 2
+			case stage == 2 && ev.Kind == "tx" && ev.Handle == o.SinkID:
+				after++
+			}
+		}
+		if after > 1 {
+			out = append(out, Issue{"sent-after-destination-was-processed", fmt.Sprintf("%d probes emitted after the destination's reply had been read and the receiver had come back for more", after)})
+		}
 	}
 	// reported endpoints = wire endpoints
 	if o.Err == nil && o.Run != nil && len(probes) > 0 {
